@@ -196,6 +196,7 @@ func (fc *FnCtx) preamble() string {
 	if d := fc.tc.strDistinct(); d != "" {
 		b.WriteString(d + "\n")
 	}
+	b.WriteString(fc.algebraAxioms()) // ext_bytesalgebra.go: only when blen/sub/strseq are used
 	return b.String()
 }
 
